@@ -41,6 +41,11 @@ type w1Payload struct {
 	onWire    bool // registered as the payload of its (agent, second)
 	items     map[string]*w1Contribution
 	decodeErr string
+
+	// positions in the request's row list (all rows, workload or not), for the handler-pause schedule
+	rows         int
+	markerIdx    int // index of the marker row
+	lastWorkload int // index of the last workload row
 }
 
 type w1Fail struct {
@@ -55,8 +60,9 @@ type w1Oracle struct {
 	wire      map[w1AT]*w1Payload   // the payload carrying the workload rows of (a,T), once seen on the wire
 	payloads  map[string]*w1Payload // by content
 	acked     map[w1AT]bool
-	storedBy  map[w1RepGen]map[w1AT]int
+	storedBy  map[w1RepGen]map[w1AT]int // stored bodies holding EVERY row of the second's payload
 	storedAny map[w1AT]int
+	partial   map[w1AT]int  // stored bodies that hold the second's marker row but lack other rows of its payload
 	crashLost map[w1AT]bool // lost with a killed agent, within what the crash model allows
 
 	// net_corrupt_request (simulator facts only, never the warning text):
@@ -83,6 +89,7 @@ func (o *w1Oracle) init(w *w1World) {
 	o.acked = map[w1AT]bool{}
 	o.storedBy = map[w1RepGen]map[w1AT]int{}
 	o.storedAny = map[w1AT]int{}
+	o.partial = map[w1AT]int{}
 	o.crashLost = map[w1AT]bool{}
 	o.corruptAcked = map[w1AT]bool{}
 	o.intactDelivered = map[w1AT]int{}
@@ -174,11 +181,13 @@ func (w *w1World) payloadLocked(inst *w1Inst, args *tlstatshouse.SendSourceBucke
 		return p
 	}
 	sender := string(args.Header.HostName)
+	p.rows, p.markerIdx, p.lastWorkload = len(b.Metrics), -1, -1
 	for i := range b.Metrics {
 		item := &b.Metrics[i]
 		if !w1IsWorkloadMetric(item.Metric) {
 			continue
 		}
+		p.lastWorkload = i
 		ts := args.Time
 		if item.IsSetT() {
 			ts = item.T
@@ -221,6 +230,7 @@ func (w *w1World) payloadLocked(inst *w1Inst, args *tlstatshouse.SendSourceBucke
 		p.items[key] = c
 		if item.Metric == w1MetricMarker {
 			p.hasMarker = true
+			p.markerIdx = i
 		}
 	}
 	return p
@@ -447,8 +457,13 @@ func (o *w1Oracle) process(w *w1World, rec *w1Rec) (fails []w1Fail) {
 		case rec.T > nowUnix:
 			w.r.Probes["ack_of_future_second"]++
 		default:
-			fail("C01", "ack_without_store", w1KindNames[rec.kind]+":"+rec.warn, "replica r%d.g%d answered discard=true for second %d of agent%d (%s, warning class %q) at %s, but no body containing that second's marker row was stored by this replica process before, the second is neither outside the historic window (%d s) nor in the future, and the simulator did not damage this request",
-				rec.replica+1, rec.repGen, rec.T, rec.agent, w1KindNames[rec.kind], rec.warn, w.ms(rec.at), window)
+			sig, what := w1KindNames[rec.kind]+":"+rec.warn, "no body containing that second's marker row"
+			if o.partial[at] > 0 {
+				sig += ":partial_body"
+				what = fmt.Sprintf("only bodies that hold the second's marker row but lack other rows of its payload (%d such bodies stored so far by any replica), no body with all rows of that second", o.partial[at])
+			}
+			fail("C01", "ack_without_store", sig, "replica r%d.g%d answered discard=true for second %d of agent%d (%s, warning class %q) at %s, but %s was stored by this replica process before, the second is neither outside the historic window (%d s) nor in the future, and the simulator did not damage this request",
+				rec.replica+1, rec.repGen, rec.T, rec.agent, w1KindNames[rec.kind], rec.warn, w.ms(rec.at), what, window)
 		}
 
 	case w1RecCH:
@@ -465,10 +480,34 @@ func (o *w1Oracle) process(w *w1World, rec *w1Rec) (fails []w1Fail) {
 				m = map[w1AT]int{}
 				o.storedBy[w1RepGen{rec.replica, rec.repGen}] = m
 			}
+			var have map[string]bool // keys of the body's workload rows, built when the first marker row is met
 			for i := range rec.body.rows {
 				row := &rec.body.rows[i]
 				if row.metric == w1MetricMarker {
 					x := w1AT{int(row.tags[1]) - 1, row.time}
+					// "stored" means the second's data, not only its marker: every row the second's payload
+					// carried must be in this body (the handler merges a payload into one bucket, a bucket goes
+					// into one body). A body that has the marker row but lacks other rows of the payload stores
+					// the second in part only: it neither licenses an ack nor satisfies the liveness clause.
+					if p := o.wire[x]; p != nil && p.decodeErr == "" {
+						if have == nil {
+							have = map[string]bool{}
+							for j := range rec.body.rows {
+								have[rec.body.rows[j].key()] = true
+							}
+						}
+						missing := 0
+						for k := range p.items {
+							if !have[k] {
+								missing++
+							}
+						}
+						if missing != 0 {
+							o.partial[x]++
+							w.r.Probes["stored_body_has_marker_but_lacks_rows_of_its_payload"]++
+							continue
+						}
+					}
 					m[x]++
 					o.storedAny[x]++
 					if o.storedAny[x] == 2 {
@@ -883,6 +922,9 @@ func (o *w1Oracle) final(w *w1World) {
 			why := "it never reached the wire"
 			if o.wire[at] != nil {
 				why = fmt.Sprintf("it crossed the wire, acked=%v, copies delivered to aggregators: %d intact, %d damaged by the simulator", o.acked[at], o.intactDelivered[at], o.corruptSeen[at])
+			}
+			if o.partial[at] > 0 {
+				why += fmt.Sprintf("; %d stored bodies hold its marker row but lack other rows of its payload", o.partial[at])
 			}
 			sig := "faulty"
 			if !w.cfg.faulty {
